@@ -42,7 +42,8 @@ let plan_case line =
     { f_id = n_of_int fid; f_packs = packs; f_del = dels }) in
   let o = { o_now = z_of_int now; o_keep_pack = z_of_int keep_pack; o_keep_delete = z_of_int keep_delete;
             o_cacheable_only = cacheable_only; o_unc = unc; o_all = all; o_no_resize = no_resize; o_instant = instant;
-            o_max_unused = mu; o_max_repack = mr; o_sz_tree = szt; o_sz_data = szd } in
+            o_max_unused = mu; o_max_repack = mr; o_sz_tree = szt; o_sz_data = szd;
+            o_rel = z_of_int 4000000000000000000 (* sentinel: the release time is not part of the case *) } in
   let bt tp = if tp = 0 then Tree else Data in
   let key (tp, i) = used_key (bt tp) (n_of_int i) in
   let typed = used_key Tree (n_of_int 1) <> used_key Data (n_of_int 1) in
